@@ -35,6 +35,18 @@ CLAIMED["C13"] = dict(level="fault_enumeration", ref="DESIGN.md §4 C13", techni
 CLAIMED["C17"] = dict(level="exploration", ref="DESIGN.md §4 C17", technique="op-sequence simulation (plus exhaustive sweeps to depth 5/6) of the real inactivity-vote primitive against a reference model; real threads under the shuttle scheduler (random + PCT) over the same source; system-level time-out probes in the downlink-runtime and agent worlds",
      text="Random and exhaustive-to-depth vote/rescind/drop/poll sequences for 2 and 3 parties on the real timeout_coord source against a reference bit-set (results, readiness iff unanimity, rescind-pending soundness, stickiness, no orphaned waiter); the same operations on 2-3 shuttle threads plus a receiver under seeded random and PCT schedules with interleaving-sound invariants and deadlock detection; at system level a downlink runtime with attached idle consumers must not stop when time passes.",
      note="shuttle executes every atomic ordering as SeqCst; futures::AtomicWaker stays real")
+CLAIMED["C08"] = dict(level="exploration", ref="DESIGN.md §4 C08", technique="deterministic simulation of the real client downlink tasks driven by scripted notification streams (whole and fragmented frames, interleaved local sets); callback trace compared with a reference fold",
+     text="Seeded notification scripts a link can legally produce (linked, events incl. update/remove/clear/take/drop, synced, events, unlinked, relink) under all four settings of events_when_not_synced / terminate_on_unlinked, delivered whole or fragmented down to one byte through the product's byte channel, with local sets interleaved by the schedule, on the real swimos_downlink value and map tasks; every lifecycle callback (kind, key, old and new value, map snapshot, on_synced state) must equal the reference fold; arbitrary (illegal) scripts are checked for absence of panics.",
+     note="only the stand-alone client downlinks are driven: the agent-hosted downlinks and the client/hosted equivalence clause of the property are NOT covered yet")
+CLAIMED["C09"] = dict(level="exploration", ref="DESIGN.md §4 C09", technique="deterministic simulation of an arbitrarily chunked text stream (SimPipe: every single cut, random multi-cuts down to 1 byte, Pending between chunks) into the real incremental decoders; round-trip / fixed-point oracles on the same runs",
+     text="Seeded generation of typed values, model values (boundary numerics, Unicode, depth up to 64, quoted attribute names, blobs) and grammar-generated / mutated / non-UTF-8 texts, printed with the three printers and fed through a chunking SimPipe into FramedRead over RecognizerDecoder / WithLenRecognizerDecoder and parse_recon_document; the incremental result must equal the one-shot parse for every chunking, typed and parser-produced values must round-trip, arbitrary model values must reach a fixed point after one cycle, nothing may panic or hang.",
+     note="single cuts exhaustive up to 256 bytes, sampled beyond; one printer defect is recorded in known_findings.json")
+CLAIMED["C10"] = dict(level="fault_enumeration", ref="DESIGN.md §4 C10", technique="deterministic simulation of a fragmenting, corrupting byte stream (SimPipe) into every encoder/decoder pair through the real FramedRead; corruption cases that can abort run in a child process",
+     text="For all 46 encoder/decoder variant pairs of swimos_agent_protocol::encoding, swimos_messages::protocol and swimos_encoding: seeded message sequences through a SimPipe with every kind of split (down to one byte, Pending between chunks) must decode to exactly what was encoded with exact frame boundaries; bit flips in tags, boundary values in length fields, truncation at every byte and body garbage must give an error or clean end - never a panic, an abort, a hang, a message from a frame that can never complete, or damage to the frames around it.",
+     note="a corrupted length that describes a consistent shorter frame legitimately decodes differently (no checksum) and is not flagged")
+CLAIMED["C12"] = dict(level="exploration", ref="DESIGN.md §4 C12", technique="seeded op-sequence simulation of the real byte channel with counting wakers against a bounded-FIFO reference model, with and without forced coop-budget yields",
+     text="Seeded sequences of poll_read / poll_write / flush / shutdown / drop (capacity 1-9, request sizes 0-12, up to 40 ops, coop budget large or 2-4) on the real channel with one counting waker per side; after every operation: bytes read are a prefix of bytes written, buffered <= capacity, EOF only after close and drain, writes fail after the reader is gone, and whenever one side was told to wait and the other side makes progress possible its waker has been invoked.",
+     note="every access is serialised by one mutex, so multi-threaded executions are interleavings of these atomic operations")
 PENDING = {}
 NOT_APPLICABLE = {
  "C15": "pure function of its two string arguments: no schedule, clock, I/O or fault can change the outcome, so there is nothing for a simulator to control (DESIGN.md §4 C15)",
